@@ -905,11 +905,41 @@ def classify(orig_sec, ib_or_err, var_sec):
     so, sv = sec_shape(orig_sec), sec_shape(var_sec)
     if len(so) == len(sv) and all(a[0] == b[0] and not b[1] for a, b in zip(so, sv)):
         return 'must-fail-unknown-ctx'
+    if len(so) == len(sv) and all(a[0] == b[0] for a, b in zip(so, sv)) and any(b[1] and not a[1] for a, b in zip(so, sv)):
+        # a block that still claims type 11/12 but whose data no longer is an abstract security block
+        return 'must-fail-undecodable-asb'
     if len(sv) < len(so):
         return 'structure:sec-block-vanished'
     if len(sv) > len(so):
         return 'structure:sec-block-appeared'
     return 'structure:sec-block-raw'
+
+
+def known_eid_norm(ssp):
+    """ The re-encoding normalisations of dtn EID text known to exist in the implementation (urlsplit): TAB, CR, LF are
+    removed; a bare authority gets a '/' path. Everything else is expected to be re-encoded literally. """
+    out = bytes(c for c in ssp if c not in b'\t\r\n')
+    if out.startswith(b'//') and not any(c in out[2:] for c in b'/?#'):
+        out += b'/'
+    return out
+
+
+def _known_eid_normalisation(ib0, ib):
+    """ Does the variant differ from the original only in dtn EID text that a *known* normalisation maps back? """
+    if not isinstance(ib, IBundle):
+        return False
+    a, b = _all_eids(ib0), _all_eids(ib)
+    if len(a) != len(b):
+        return False
+    hit = False
+    for x, y in zip(a, b):
+        if x == y:
+            continue
+        if (x is None or y is None or x['t'] != 'dtn' or y['t'] != 'dtn'
+                or known_eid_norm(bytes.fromhex(y['ssp'])) != bytes.fromhex(x['ssp'])):
+            return False
+        hit = True
+    return hit
 
 
 def _all_eids(ib):
@@ -998,16 +1028,15 @@ def run_variants(chk, prop, rcv, data, variants, label, replay_base, capture=Tru
             # never entered the receive chain: undecodable for the implementation, CRC gate, own source
             # (a decodable-by-RFC bundle that the implementation cannot decode is a C02 matter, a CRC disagreement C08)
             chk.count('%s:%s:stopped-before-chain(%s)' % (label, cls, type(out.escaped).__name__ if out.escaped else 'silent'))
-        elif cls in ('must-fail', 'must-fail-unknown-ctx'):
+        elif cls in ('must-fail', 'must-fail-unknown-ctx', 'must-fail-undecodable-asb'):
             if out.delivered:
-                norm = False
-                try:
-                    norm = bytes(out.ctr.bundle.primary) == prim0 and v[ib0.primary_span[0]:ib0.primary_span[1]] != prim0
-                except Exception:
-                    pass
-                norm = norm or _eid_text_changed(ib0, ib)
-                if norm:
-                    chk.count('%s:D20-normalising-corruption-delivered(C08)' % label)
+                if cls == 'must-fail-undecodable-asb':
+                    chk.violation('%s:undecodable-security-block-delivered' % prop,
+                                  'the data of a type 11/12 block was altered so that it no longer decodes as a security block: delivered', replay)
+                elif _known_eid_normalisation(ib0, ib):
+                    # pre-existing, reported: EID text which the codec maps back to the original (tab / CR / LF removed,
+                    # '/' appended to a bare authority) is authenticated as the original
+                    chk.count('%s:known-eid-normalisation-delivered(pre-existing,C08)' % label)
                 else:
                     chk.violation('%s:covered-alteration-delivered' % prop,
                                   'a bundle altered inside the authenticated scope was delivered', replay)
